@@ -36,52 +36,114 @@ structure Wire where
   lf : SLf := .idle
   deriving DecidableEq, Repr
 
+/-! per protocol: `c*` = what the client (initiator) may send, `s*` = what the server (responder)
+    may send, in a given state; anything not listed is a violation -/
+
+def cHs : SHs → HsMsg → Option SHs
+  | .propose, .propose _ => some .confirm
+  | _, _ => none
+def sHs : SHs → HsMsg → Option SHs
+  | .confirm, .accept _ _ => some .done
+  | .confirm, .refuse => some .done
+  | .confirm, .queryReply => some .done
+  | _, _ => none
+
+def cKa : SKa → KaMsg → Option SKa
+  | .client, .keepAlive _ => some .server
+  | .client, .done => some .done
+  | _, _ => none
+def sKa : SKa → KaMsg → Option SKa
+  | .server, .response _ => some .client
+  | _, _ => none
+
+def cPs : SPs → PsMsg → Option SPs
+  | .idle, .shareRequest _ => some .busy
+  | .idle, .done => some .done
+  | _, _ => none
+def sPs : SPs → PsMsg → Option SPs
+  | .busy, .sharePeers _ => some .idle
+  | _, _ => none
+
+def cBf : SBf → BfMsg → Option SBf
+  | .idle, .requestRange _ => some .busy
+  | .idle, .clientDone => some .done
+  | _, _ => none
+def sBf : SBf → BfMsg → Option SBf
+  | .busy, .startBatch => some .streaming
+  | .busy, .noBlocks => some .idle
+  | .streaming, .block _ => some .streaming
+  | .streaming, .batchDone => some .idle
+  | _, _ => none
+
+def cCs : SCs → CsMsg → Option SCs
+  | .idle, .requestNext => some .canAwait
+  | .idle, .findIntersect => some .intersect
+  | .idle, .done => some .done
+  | _, _ => none
+def sCs : SCs → CsMsg → Option SCs
+  | .canAwait, .awaitReply => some .mustReply
+  | .canAwait, .rollForward _ => some .idle
+  | .canAwait, .rollBackward _ => some .idle
+  | .mustReply, .rollForward _ => some .idle
+  | .mustReply, .rollBackward _ => some .idle
+  | .intersect, .intersectFound _ => some .idle
+  | .intersect, .intersectNotFound => some .idle
+  | _, _ => none
+
+def cTx : STx → TxMsg → Option STx
+  | .init, .init => some .idle
+  | .txIdsBlocking, .replyTxIds => some .idle
+  | .txIdsNonBlocking, .replyTxIds => some .idle
+  | .txs, .replyTxs _ => some .idle
+  | .txIdsBlocking, .done => some .done
+  | _, _ => none
+def sTx : STx → TxMsg → Option STx
+  | .idle, .requestTxIds => some .txIdsBlocking
+  | .idle, .requestTxs => some .txs
+  | _, _ => none
+
+def cLn : SLn → LnMsg → Option SLn
+  | .idle, .requestNext => some .busy
+  | .idle, .done => some .done
+  | _, _ => none
+def sLn : SLn → LnMsg → Option SLn
+  | .busy, .blockAnnouncement => some .idle
+  | .busy, .blockOffer => some .idle
+  | .busy, .blockTxsOffer => some .idle
+  | .busy, .votes => some .idle
+  | _, _ => none
+
+def cLf : SLf → LfMsg → Option SLf
+  | .idle, .blockRequest _ => some .awaitingBlock
+  | .idle, .blockTxsRequest _ => some .awaitingBlockTxs
+  | .idle, .done => some .done
+  | _, _ => none
+def sLf : SLf → LfMsg → Option SLf
+  | .awaitingBlock, .block => some .idle
+  | .awaitingBlockTxs, .blockTxs => some .idle
+  | _, _ => none
+
 /-- messages the *initiator* (client agency) may send, per specification state -/
 def clientStep (w : Wire) : Msg → Option Wire
-  | .hs (.propose _) => if w.hs = .propose then some { w with hs := .confirm } else none
-  | .ka (.keepAlive _) => if w.ka = .client then some { w with ka := .server } else none
-  | .ka .done => if w.ka = .client then some { w with ka := .done } else none
-  | .ps (.shareRequest _) => if w.ps = .idle then some { w with ps := .busy } else none
-  | .ps .done => if w.ps = .idle then some { w with ps := .done } else none
-  | .bf (.requestRange _) => if w.bf = .idle then some { w with bf := .busy } else none
-  | .bf .clientDone => if w.bf = .idle then some { w with bf := .done } else none
-  | .cs .requestNext => if w.cs = .idle then some { w with cs := .canAwait } else none
-  | .cs .findIntersect => if w.cs = .idle then some { w with cs := .intersect } else none
-  | .cs .done => if w.cs = .idle then some { w with cs := .done } else none
-  | .tx .init => if w.tx = .init then some { w with tx := .idle } else none
-  | .tx .replyTxIds =>
-    if w.tx = .txIdsBlocking ∨ w.tx = .txIdsNonBlocking then some { w with tx := .idle } else none
-  | .tx (.replyTxs _) => if w.tx = .txs then some { w with tx := .idle } else none
-  | .tx .done => if w.tx = .txIdsBlocking then some { w with tx := .done } else none
-  | .ln .requestNext => if w.ln = .idle then some { w with ln := .busy } else none
-  | .ln .done => if w.ln = .idle then some { w with ln := .done } else none
-  | .lf (.blockRequest _) => if w.lf = .idle then some { w with lf := .awaitingBlock } else none
-  | .lf (.blockTxsRequest _) => if w.lf = .idle then some { w with lf := .awaitingBlockTxs } else none
-  | .lf .done => if w.lf = .idle then some { w with lf := .done } else none
-  | _ => none
+  | .hs m => (cHs w.hs m).map (fun x => { w with hs := x })
+  | .ka m => (cKa w.ka m).map (fun x => { w with ka := x })
+  | .cs m => (cCs w.cs m).map (fun x => { w with cs := x })
+  | .ps m => (cPs w.ps m).map (fun x => { w with ps := x })
+  | .bf m => (cBf w.bf m).map (fun x => { w with bf := x })
+  | .tx m => (cTx w.tx m).map (fun x => { w with tx := x })
+  | .ln m => (cLn w.ln m).map (fun x => { w with ln := x })
+  | .lf m => (cLf w.lf m).map (fun x => { w with lf := x })
 
 /-- messages the *responder* (server agency) may send, per specification state -/
 def serverStep (w : Wire) : Msg → Option Wire
-  | .hs (.accept _ _) | .hs .refuse | .hs .queryReply =>
-    if w.hs = .confirm then some { w with hs := .done } else none
-  | .ka (.response _) => if w.ka = .server then some { w with ka := .client } else none
-  | .ps (.sharePeers _) => if w.ps = .busy then some { w with ps := .idle } else none
-  | .bf .startBatch => if w.bf = .busy then some { w with bf := .streaming } else none
-  | .bf .noBlocks => if w.bf = .busy then some { w with bf := .idle } else none
-  | .bf (.block _) => if w.bf = .streaming then some w else none
-  | .bf .batchDone => if w.bf = .streaming then some { w with bf := .idle } else none
-  | .cs .awaitReply => if w.cs = .canAwait then some { w with cs := .mustReply } else none
-  | .cs (.rollForward _) | .cs (.rollBackward _) =>
-    if w.cs = .canAwait ∨ w.cs = .mustReply then some { w with cs := .idle } else none
-  | .cs (.intersectFound _) | .cs .intersectNotFound =>
-    if w.cs = .intersect then some { w with cs := .idle } else none
-  | .tx .requestTxIds => if w.tx = .idle then some { w with tx := .txIdsBlocking } else none
-  | .tx .requestTxs => if w.tx = .idle then some { w with tx := .txs } else none
-  | .ln .blockAnnouncement | .ln .blockOffer | .ln .blockTxsOffer | .ln .votes =>
-    if w.ln = .busy then some { w with ln := .idle } else none
-  | .lf .block => if w.lf = .awaitingBlock then some { w with lf := .idle } else none
-  | .lf .blockTxs => if w.lf = .awaitingBlockTxs then some { w with lf := .idle } else none
-  | _ => none
+  | .hs m => (sHs w.hs m).map (fun x => { w with hs := x })
+  | .ka m => (sKa w.ka m).map (fun x => { w with ka := x })
+  | .cs m => (sCs w.cs m).map (fun x => { w with cs := x })
+  | .ps m => (sPs w.ps m).map (fun x => { w with ps := x })
+  | .bf m => (sBf w.bf m).map (fun x => { w with bf := x })
+  | .tx m => (sTx w.tx m).map (fun x => { w with tx := x })
+  | .ln m => (sLn w.ln m).map (fun x => { w with ln := x })
+  | .lf m => (sLf w.lf m).map (fun x => { w with lf := x })
 
 /-- protocol index used by `reply` steps and by the per-protocol bookkeeping -/
 inductive Proto where | hs | ka | cs | ps | bf | tx | ln | lf deriving DecidableEq, Repr
@@ -231,5 +293,84 @@ def sysRun (y : Sys) : List Sched → Option Sys
     | some y' => sysRun y' as
 
 def Sys.init (cfg : Cfg) : Sys := { st := St.init cfg }
+
+/-! ## lock-step schedules (the domain of `initiator_conformant_partial`)
+
+  Every step that feeds an event to the initiator is followed at once by the confirmation (`Sent`)
+  of each `Send` it queued and by its arrival at the responder; replies, their delivery (in
+  batches), commands, connection set-up, drops and errors are scheduled freely. -/
+
+def advClient (v : Wire) : List Msg → Option Wire
+  | [] => some v
+  | m :: ms => match clientStep v m with
+    | none => none
+    | some v' => advClient v' ms
+
+def advServer (v : Wire) : List Msg → Option Wire
+  | [] => some v
+  | m :: ms => match serverStep v m with
+    | none => none
+    | some v' => advServer v' ms
+
+/-- the messages queued for peer `p`, in order -/
+def sendsTo (p : Nat) : List Out → List Msg
+  | [] => []
+  | .send q m :: os => if q = p then m :: sendsTo p os else sendsTo p os
+  | _ :: os => sendsTo p os
+
+/-- confirm and deliver-to-the-responder every queued `Send`, in emission order -/
+def settleOf : List Out → List Sched
+  | [] => []
+  | .send p _ :: os => .confirm p :: .arrive p :: settleOf os
+  | _ :: os => settleOf os
+
+def feedSettle (y : Sys) (e : Ev) : Option Sys :=
+  match feed y e with
+  | none => none
+  | some y' => sysRun y' (settleOf y'.st.out)
+
+inductive SStep where
+  | cmd (e : Ev)
+  | connect (p : Nat)
+  | reply (p : Nat) (x : Proto) (k : Nat)
+  | deliver (p : Nat) (n : Nat)
+  | drop (p : Nat)
+  | fail (p : Nat)
+  deriving Repr
+
+def syncStep (y : Sys) : SStep → Option Sys
+  | .cmd e => if isCommand e then feedSettle y e else some y
+  | .connect p =>
+    match y.links p with
+    | .pending => feedSettle { y with links := setLink y.links p (.up {}) } (.connected p)
+    | _ => some y
+  | .reply p x k => sysStep y (.reply p x k)
+  | .deliver p n =>
+    match y.links p with
+    | .up l =>
+      match l.toInit with
+      | [] => some y
+      | ms => feedSettle { y with links := setLink y.links p (.up { l with toInit := ms.drop (n + 1) }) } (.recv p (ms.take (n + 1)))
+    | _ => some y
+  | .drop p =>
+    match y.links p with
+    | .down => some y
+    | _ => feedSettle { y with links := setLink y.links p .down } (.disconnected p)
+  | .fail p =>
+    match y.links p with
+    | .down => some y
+    | _ => feedSettle y (.error p)
+
+def syncRun (y : Sys) : List SStep → Option Sys
+  | [] => some y
+  | a :: as => match syncStep y a with
+    | none => none
+    | some y' => syncRun y' as
+
+/-- housekeeping iterates a map: no peer twice -/
+def SStep.ok : SStep → Prop
+  | .cmd (.housekeeping ord _) => ord.Nodup
+  | .cmd (.idle ord _) => ord.Nodup
+  | _ => True
 
 end PallasVerif.P2P
